@@ -202,35 +202,82 @@ def bracketOp (bc : List Char) : Option Op :=
       else none
     | _ => none
 
+/-- the `->` separator expected before every operation but the first (`i > 0` in the code) -/
+def sep (first : Bool) (cs : List Char) : Option (List Char) :=
+  if first then some cs else
+  match cs with
+  | '-' :: '>' :: rest => if rest.isEmpty then none else some rest
+  | _ => none
+
+/-- one operation at the head of the remaining characters: a bracket (`[...]`) or an attribute name up to the next `->` -/
+def stepOp : List Char → Option (Op × List Char)
+  | [] => none
+  | '[' :: rest =>
+    let content := rest.takeWhile (· ≠ ']')
+    let after := rest.dropWhile (· ≠ ']')
+    match after with
+    | [] => none
+    | _ :: after' => (bracketOp (strip content)).map fun op => (op, after')
+  | cs' =>
+    let (name, rest) := untilArrow cs'
+    if name.isEmpty then none
+    else if !isIdent name then none
+    else some (.attr (String.ofList name), rest)
+
+/-- the `while i < len(s)` loop -/
 def parseLoop : Nat → Bool → List Char → List Op → Option (List Op)
   | 0, _, _, _ => none
-  | _ + 1, false, [], acc => some acc.reverse
   | fuel + 1, first, cs, acc =>
-    let cs? : Option (List Char) :=
-      if first then some cs else
-      match cs with
-      | '-' :: '>' :: rest => if rest.isEmpty then none else some rest
-      | _ => none
-    match cs? with
+    if !first && cs.isEmpty then some acc.reverse else
+    match sep first cs with
     | none => none
-    | some [] => none
-    | some ('[' :: rest) =>
-      let content := rest.takeWhile (· ≠ ']')
-      let after := rest.dropWhile (· ≠ ']')
-      match after with
-      | [] => none
-      | _ :: after' =>
-        match bracketOp (strip content) with
-        | some op => parseLoop fuel false after' (op :: acc)
-        | none => none
     | some cs' =>
-      let (name, rest) := untilArrow cs'
-      if name.isEmpty then none
-      else if !isIdent name then none
-      else parseLoop fuel false rest (.attr (String.ofList name) :: acc)
+      match stepOp cs' with
+      | none => none
+      | some (op, rest) => parseLoop fuel false rest (op :: acc)
 
-def parseOps (s : String) : Option (List Op) :=
-  if s.isEmpty then none else parseLoop (s.length + 2) true s.toList []
+/-- `_parse_operations` on the characters of the path -/
+def parseChars (cs : List Char) : Option (List Op) :=
+  if cs.isEmpty then none else parseLoop (cs.length + 2) true cs []
+
+def parseOps (s : String) : Option (List Op) := parseChars s.toList
+
+/-! ### rendering a list of operations as a path (the syntax of the docstring: `a->b->[0]->['name']`) -/
+
+def digitChar (d : Nat) : Char := Char.ofNat (48 + d)
+
+/-- decimal digits of a natural number, most significant first -/
+def natDigits (n : Nat) : List Char :=
+  if n < 10 then [digitChar n] else natDigits (n / 10) ++ [digitChar (n % 10)]
+termination_by n
+decreasing_by omega
+
+def intChars (i : Int) : List Char :=
+  if i < 0 then '-' :: natDigits i.natAbs else natDigits i.toNat
+
+def renderOp : Op → List Char
+  | .attr n => n.toList
+  | .idx i => '[' :: intChars i ++ [']']
+  | .key k => '[' :: '\'' :: k.toList ++ ['\'', ']']
+
+/-- the operations after the first one, each preceded by the separator -/
+def renderTail : List Op → List Char
+  | [] => []
+  | op :: rest => '-' :: '>' :: renderOp op ++ renderTail rest
+
+def renderChars : List Op → List Char
+  | [] => []
+  | op :: rest => renderOp op ++ renderTail rest
+
+def renderPath (ops : List Op) : String := String.ofList (renderChars ops)
+
+/-- the operations the parser can express: an attribute name must be an (ASCII) identifier — in particular it contains
+no `-`, `>`, `[`, blank —, a key must not contain `'`, `[` or `]` (anything else, also `->`, blanks, the empty key, is
+fine), an index is any integer -/
+def wfOp : Op → Bool
+  | .attr n => isIdent n.toList
+  | .idx _ => true
+  | .key k => k.toList.all fun c => !(c == '\'' || c == '[' || c == ']')
 
 /-! ### Driver (protocol glue; not used by the theorems) -/
 open Proto
@@ -320,6 +367,7 @@ def showOp : Op → String
 
 /-- ops:
   `parse <x‑hex path>`                               → `ok <ops…>` | `parse-error`
+  `render <op>…`  (`a<hex>` | `i<int>` | `k<hex>`)   → `ok x<hex of the rendered path>` | `not-wf x<hex>` (rendered anyway)
   `aset <create 0|1> <x‑hex path> <root tree> <value tree>`
        → `parse-error` | `error` | `ok <#new cells> | <result tree> | <original tree after the call>` -/
 def handle : List String → String
@@ -328,6 +376,16 @@ def handle : List String → String
     | some s => match parseOps s with
       | some ops => joinSp ("ok" :: ops.map showOp)
       | none => "parse-error"
+    | none => "bad-op"
+  | "render" :: toks =>
+    let rd : String → Option Op := fun t =>
+      match t.toList with
+      | 'a' :: r => (unhex (String.ofList r)).map Op.attr
+      | 'k' :: r => (unhex (String.ofList r)).map Op.key
+      | 'i' :: r => (String.ofList r).toInt?.map Op.idx
+      | _ => none
+    match toks.mapM rd with
+    | some ops => (if ops.all wfOp && !ops.isEmpty then "ok x" else "not-wf x") ++ hexStr (renderPath ops)
     | none => "bad-op"
   | "aset" :: c :: p :: rest =>
     match (if c = "0" then some false else if c = "1" then some true else none), nameOf p with
